@@ -70,6 +70,9 @@ type Config struct {
 	Comments   bool
 	Multibyte  bool
 	FuncHeavy  bool // bias towards nested functions and blocks (C16)
+	// DeepNest > 0: one chain of nested blocks / function declarations / function expressions is forced
+	// down to this many statement-list contexts, with a statement before and after each nested construct
+	DeepNest int
 }
 
 var idents = []string{"a", "b", "c", "x", "y", "foo", "bar", "done", "index", "value", "item", "obj", "arr", "fn", "n", "i", "tmp", "result", "count",
@@ -104,6 +107,7 @@ type emitter struct {
 	maxCtx      int
 	feat        map[string]int
 	nlOK        bool // a newline (or comment) may precede the next token inside a statement
+	chainDone   bool // DeepNest: the forced chain reached its depth
 	forceSemi   bool // the pending separator must be an explicit ';' (after a bare `return`: xjs reads a value across the line break)
 }
 
@@ -357,7 +361,10 @@ func (e *emitter) stmtList(parent, nest, n int) {
 	}
 }
 
-func (e *emitter) stmt(parent, nest int) {
+func (e *emitter) stmt(parent, nest int) { e.stmtK(parent, nest, -1) }
+
+// stmtK emits a statement of the given kind (-1: seeded choice).
+func (e *emitter) stmtK(parent, nest, forced int) {
 	ch := e.ch
 	// weights: expr, let, if, while, for, block, funcdecl, return
 	w := []int{10, 7, 3, 2, 2, 2, 3, 0}
@@ -370,7 +377,10 @@ func (e *emitter) stmt(parent, nest int) {
 	if e.inFunc() {
 		w[7] = 4
 	}
-	kind := ch.Weighted(w...)
+	kind := forced
+	if kind < 0 {
+		kind = ch.Weighted(w...)
+	}
 	first := len(e.toks)
 	if e.pendingSep {
 		// the ';' token (if chosen) is emitted by gap() before the statement's first token
@@ -445,10 +455,12 @@ func (e *emitter) stmt(parent, nest int) {
 			e.expr(2, 0, false)
 		}
 		e.tok(";", "for.;1")
+		e.nl() // a header may be wrapped over several lines: no semicolon insertion inside it
 		if ch.Bool(4, 5) {
 			e.expr(2, 0, false)
 		}
 		e.tok(";", "for.;2")
+		e.nl()
 		if ch.Bool(4, 5) {
 			e.expr(2, 0, false)
 		}
@@ -486,6 +498,41 @@ func (e *emitter) stmt(parent, nest int) {
 		e.endStmt(id, first, true)
 		e.forceSemi = bare
 		e.feat["return"]++
+	}
+}
+
+// deepChain: [simple statement] nesting construct [simple statement] — the nesting construct's
+// own statement list continues the chain.
+func (e *emitter) deepChain(parent, nest int) {
+	ch := e.ch
+	simple := func() {
+		saveDepth := e.cfg.MaxDepth
+		e.cfg.MaxDepth = 1
+		e.stmtK(parent, 1<<20, ch.Weighted(1, 1)) // expression or let; nest beyond MaxNest: no nesting inside
+		e.cfg.MaxDepth = saveDepth
+	}
+	if ch.Bool(2, 3) {
+		simple()
+	}
+	switch ch.Weighted(3, 4, 3) {
+	case 0:
+		e.stmtK(parent, nest, 5) // block
+	case 1:
+		e.stmtK(parent, nest, 6) // function declaration
+	default:
+		// function expression as initialiser: let f = function () { ... }
+		first := len(e.toks)
+		id := e.beginStmt("let", parent)
+		si := e.markStart()
+		e.tok("let", "let")
+		e.tok(e.ident(), "let.name")
+		e.tok("=", "let.=")
+		e.funcExpr(0)
+		e.patchStart(si, id, &first)
+		e.endStmt(id, first, true)
+	}
+	if ch.Bool(2, 3) {
+		simple()
 	}
 }
 
@@ -576,7 +623,14 @@ func (e *emitter) block(parent, nest, ctx int, open, close string) {
 	e.nl()
 	n := e.ch.Weighted(2, 5, 4, 2)
 	saved := e.curStmt
-	e.stmtList(parent, nest+1, n)
+	if e.cfg.DeepNest > 0 && len(e.ctx) < e.cfg.DeepNest && !e.chainDone {
+		e.deepChain(parent, nest+1)
+	} else {
+		if e.cfg.DeepNest > 0 {
+			e.chainDone = true
+		}
+		e.stmtList(parent, nest+1, n)
+	}
 	e.curStmt = saved
 	e.ctx = e.ctx[:len(e.ctx)-1]
 	// closing brace: gap() resolves a pending separator knowing the next token is '}'
@@ -899,7 +953,11 @@ func (e *emitter) templateLit() string {
 func Generate(ch *kernel.Chooser, cfg Config) *Program {
 	e := &emitter{ch: ch, cfg: cfg, curStmt: -1, feat: map[string]int{}}
 	n := 1 + ch.Choose(cfg.MaxStmts)
-	e.stmtList(-1, 0, n)
+	if cfg.DeepNest > 0 {
+		e.deepChain(-1, 0)
+	} else {
+		e.stmtList(-1, 0, n)
+	}
 	// trailing layout: a pending separator at end of input may be anything
 	if e.pendingSep {
 		switch ch.Weighted(4, 3, 2) {
